@@ -15,6 +15,10 @@
 (*          sample.                                                        *)
 (*  "median": the default moving average of the ETA decorator: a window of  *)
 (*          the last three samples; reading it does not change it.         *)
+(*  "norm": the two time normalizers an ETA decorator may be given        *)
+(*          (decor/eta.go): between two looks at the raw estimate they     *)
+(*          count the last one they showed down by the clock; below one    *)
+(*          minute they are out of the way.                                *)
 (* TLC checks the invariants and prints one case per terminal state; the   *)
 (* driver formats the same value with the real decorators / formatter      *)
 (* types and compares (numbers parsed back, exact rational arithmetic).    *)
@@ -22,12 +26,13 @@
 (***************************************************************************)
 EXTENDS Integers, Sequences, FiniteSets, TLC, Json
 
-CONSTANTS SampleN, SampleDur, MaxSamples, MedianVals, MaxMedianOps
+CONSTANTS SampleN, SampleDur, MaxSamples, MedianVals, MaxMedianOps,
+          NormRem, NormDt, NormPars, MaxNormCalls    \* raw estimates (s), time between calls (s), parameters, calls per case
 
 Seqs(S, n) == UNION {[1..k -> S] : k \in 0..n}
 
-VARIABLES kind, c, i, zDur, adds, received, accounted, win, outs
-vars == <<kind, c, i, zDur, adds, received, accounted, win, outs>>
+VARIABLES kind, c, i, zDur, adds, received, accounted, win, outs, nz
+vars == <<kind, c, i, zDur, adds, received, accounted, win, outs, nz>>
 
 EwmaCases == [samples : Seqs([n : SampleN, dur : SampleDur], MaxSamples) \ {<<>>}]
 SizeCases == [base : {1000, 1024}, e : 0..5, m : {1, 2, 999}, d : {-1, 0, 1}]
@@ -36,10 +41,15 @@ PctCases  == [total : {1, 3, 7, 100, 120}, cur : 0..8]
 (* an operation on the window: 0 reads it (a frame is drawn), v > 0 adds the sample v *)
 AvgCases == [durs : Seqs({1, 3, 5}, 4) \ {<<>>}]      \* seconds per item, one item per sample
 MedianCases == [ops : Seqs(MedianVals \cup {0}, MaxMedianOps) \ {<<>>}]
+(* a normalizer ("fixed": FixedIntervalTimeNormalizer(par), "tol": MaxTolerateTimeNormalizer(par s)) and the calls it gets:
+   the raw estimate and the time that has passed since the call before *)
+NormCases == [which : {"fixed", "tol"}, par : NormPars, calls : Seqs([rem : NormRem, dt : NormDt], MaxNormCalls) \ {<<>>}]
 
-Init == /\ kind \in {"ewma", "size", "time", "pct", "median", "avg"}
+NormInit == [count |-> 0, val |-> 0, base |-> 0, since |-> 0, run |-> 0, resets |-> <<>>]
+Init == /\ kind \in {"ewma", "size", "time", "pct", "median", "avg", "norm"}
+        /\ nz = NormInit
         /\ c \in (CASE kind = "ewma" -> EwmaCases [] kind = "size" -> SizeCases [] kind = "time" -> TimeCases
-                     [] kind = "median" -> MedianCases [] kind = "avg" -> AvgCases [] OTHER -> PctCases)
+                     [] kind = "median" -> MedianCases [] kind = "avg" -> AvgCases [] kind = "norm" -> NormCases [] OTHER -> PctCases)
         /\ i = 1 /\ zDur = 0 /\ adds = <<>> /\ received = 0 /\ accounted = 0
         /\ win = <<0, 0, 0>> /\ outs = <<>>
 
@@ -54,7 +64,7 @@ Update ==
                /\ adds' = Append(adds, [num |-> zDur + s.dur, den |-> s.n])
                /\ accounted' = accounted + zDur + s.dur
                /\ zDur' = 0
-  /\ i' = i + 1 /\ UNCHANGED <<kind, c, win, outs>>
+  /\ i' = i + 1 /\ UNCHANGED <<kind, c, win, outs, nz>>
 
 (* decor/moving_average.go: the window of the last three samples, oldest first *)
 Median3(w) == CHOOSE x \in {w[1], w[2], w[3]} :
@@ -65,7 +75,26 @@ MedianOp ==
   /\ IF c.ops[i] = 0
      THEN outs' = Append(outs, Median3(win)) /\ UNCHANGED win
      ELSE win' = <<win[2], win[3], c.ops[i]>> /\ UNCHANGED outs
-  /\ i' = i + 1 /\ UNCHANGED <<kind, c, zDur, adds, received, accounted>>
+  /\ i' = i + 1 /\ UNCHANGED <<kind, c, zDur, adds, received, accounted, nz>>
+
+(* decor/eta.go, FixedIntervalTimeNormalizer and MaxTolerateTimeNormalizer: one Normalize(rem) call, dt after the call before.
+   count / val are the closures' variables; base, since, run and resets are history (the raw value last shown, the time
+   since then, the calls since then, and which calls showed the raw value) *)
+NormCall ==
+  /\ kind = "norm" /\ i <= Len(c.calls)
+  /\ LET rem  == c.calls[i].rem
+         dt   == c.calls[i].dt
+         look == IF c.which = "fixed" THEN nz.count = 0 \/ rem < 60
+                 ELSE (nz.val - rem <= 0) \/ (nz.val - rem > c.par) \/ rem < 60
+         down == nz.val - dt
+     IN IF look
+        THEN /\ nz' = [count |-> IF c.which = "fixed" THEN c.par ELSE 0, val |-> rem, base |-> rem, since |-> 0, run |-> 0,
+                       resets |-> Append(nz.resets, TRUE)]
+             /\ outs' = Append(outs, rem)
+        ELSE /\ nz' = [count |-> IF c.which = "fixed" THEN nz.count - 1 ELSE 0, val |-> down, base |-> nz.base,
+                       since |-> nz.since + dt, run |-> nz.run + 1, resets |-> Append(nz.resets, FALSE)]
+             /\ outs' = Append(outs, IF down > 0 THEN down ELSE rem)
+  /\ i' = i + 1 /\ UNCHANGED <<kind, c, zDur, adds, received, accounted, win>>
 
 (* github.com/VividCortex/ewma SimpleEWMA (what the decorators use for age 0, "the default"): value * 31^(k-1) after
    k samples, so that the arithmetic stays in the integers *)
@@ -81,8 +110,9 @@ IsAnAverage == kind = "avg" =>
      /\ AvgNum(c.durs, k) >= MinOf(p) * AvgDen(k)
      /\ AvgNum(c.durs, k) <= MaxOfD(p) * AvgDen(k)
 
-Done == CASE kind = "ewma" -> i = Len(c.samples) + 1 [] kind = "median" -> i = Len(c.ops) + 1 [] OTHER -> TRUE
-Next == Update \/ MedianOp \/ (Done /\ UNCHANGED vars)
+Done == CASE kind = "ewma" -> i = Len(c.samples) + 1 [] kind = "median" -> i = Len(c.ops) + 1
+          [] kind = "norm" -> i = Len(c.calls) + 1 [] OTHER -> TRUE
+Next == Update \/ MedianOp \/ NormCall \/ (Done /\ UNCHANGED vars)
 Spec == Init /\ [][Next]_vars
 
 (* no time is lost and none is invented *)
@@ -97,6 +127,19 @@ ReadPos == IF kind = "median" THEN {k \in 1..(i - 1) : c.ops[k] = 0} ELSE {}
 MedianOfLastThree ==
   kind = "median" =>
     \A k \in ReadPos : outs[Cardinality({j \in ReadPos : j <= k})] = Median3(LastThree(AddedBefore(k)))
+
+(* the normalizers: what is shown is the raw estimate, or the raw estimate shown at the last look counted down by the time
+   that has passed since (and still positive); under a minute it is the raw estimate; the fixed-interval flavour looks at
+   the raw estimate at least every par + 1 calls; the tolerant flavour never shows more than the raw estimate + par *)
+NormShown == kind = "norm" =>
+  \A k \in 1..Len(outs) :
+     /\ (c.calls[k].rem < 60 => outs[k] = c.calls[k].rem)
+     /\ (nz.resets[k] => outs[k] = c.calls[k].rem)
+     /\ (c.calls[k].rem >= 0 => outs[k] >= 0) /\ (c.calls[k].rem > 0 => outs[k] > 0)
+NormCountsDown == (kind = "norm" /\ Len(outs) > 0 /\ ~nz.resets[Len(outs)]) =>
+                     outs[Len(outs)] \in {c.calls[Len(outs)].rem, nz.base - nz.since}
+NormFresh == (kind = "norm" /\ c.which = "fixed") => nz.run <= c.par
+NormTolerant == (kind = "norm" /\ c.which = "tol") => \A k \in 1..Len(outs) : outs[k] - c.calls[k].rem <= c.par
 
 (* size: which unit (0 = b, 1 = K, ... 4 = T) and what the mantissa is in that unit *)
 SizeUnit(x) == LET raw == IF x.e = 0 /\ x.m + x.d >= x.base THEN 1     \* 999 + 1 bytes are one K
